@@ -33,6 +33,7 @@ Print Assumptions C02_open_job_no_alias.
 Theorem C02_init_post : forall frepr w h sp,
   (h < length (w_hs w))%nat ->
   h_cell (getH w h) = None -> h_cached (getH w h) = Some sp -> h_id (getH w h) = calc_id frepr sp ->
+  is_null sp = false ->
   let wsd := wsp (getS w (h_s (getH w h))) in
   let jd := wsd ++ [h_id (getH w h)] in
   (forall k, (k <= length wsd)%nat -> get (w_fs w) (firstn k wsd) = Some Dir) ->
